@@ -3,6 +3,8 @@
 Decided clause (static, for all histories): field coverage of the reset call chains, field-wise
 identity of deflate::copy, pointer re-pointing of inflate::copy.  See DESIGN.md §4 C14.
 """
+import re
+
 from .. import mir, flow
 from ..core import where
 from ..ctx import prog, writes, Z
@@ -13,14 +15,17 @@ EXPLANATION = (
     "or dead-on-reset with its reason; (2) every field of the State aggregate built in deflate::copy is "
     "the same field of the source, or a listed re-pointed buffer built from the new allocation; "
     "(3) inflate::copy overwrites every owning pointer field after the raw struct copy; "
-    "(4) the Rust wrappers' reset zero both totals and call the core reset. Decides the structural "
+    "(4) the Rust wrappers' reset zero both totals and call the core reset; (5) COPY whole-buffer: each buffer "
+    "type's clone_to (Pending, SymBuf, inflate Window) copies, from the first byte of the source buffer, exactly as "
+    "many elements as the new buffer is long (SymBuf::push_lit stores one byte per three-byte advance, so bytes "
+    "beyond `filled` are read later). Decides the structural "
     "necessary condition only, not behavioural equality.")
 
 CLAIM = dict(
     text="Static field-coverage proof obligations over MIR: every leaf field of the deflate/inflate state is written on "
          "every success path of the reset call chain or is a listed configuration/dead field; deflateCopy's State "
-         "aggregate is field-wise the source or a buffer rebuilt on the new allocation; inflateCopy re-points every "
-         "owning pointer. Holds for all histories because it is a statement about program text; behavioural equality "
+         "aggregate is field-wise the source or a buffer rebuilt on the new allocation; buffer clones copy the whole "
+         "buffer; inflateCopy re-points every owning pointer. Holds for all histories because it is a statement about program text; behavioural equality "
          "of copies/resets beyond this clause is not decided.",
     note="Trusted: rustc's MIR; the classification tables (configuration / dead-on-reset / re-pointed / non-owning) "
          "confirmed by reading, one reason each; host target only.",
@@ -384,6 +389,40 @@ def run(ck):
                                                          cut_blocks=[c.bb for c in calls])
         ck.decide(ok, "CUT/wrapper-reset", path.replace(Z, "") + ":core", "core reset called on every path",
                   "wrapper reset can return without calling the core reset", where(f))
+    # ---------------- (5b) buffer clones copy the whole buffer -------------------------------------
+    # A buffer type's clone_to hands the copy a buffer of the same capacity; every byte of it is observable unless a
+    # liveness argument says otherwise (SymBuf::push_lit stores one byte and advances the cursor by three: it
+    # relies on the bytes beyond `filled` being zero, so a clone that copies only the filled part diverges).
+    # Rule: the element count of the raw copy is the same expression as the length of the slice the clone is
+    # built from, and the copy starts at the buffer's first byte.
+    clones = [f for f in P.fns.values() if f.path.startswith(Z) and f.path.endswith("::clone_to")]
+    ck.floor("COPY/whole-buffer:clone_to fns", len(clones), 3)
+    for f in clones:
+        ck.use_fn(f)
+        name = f.path.replace(Z, "")
+        cps = f.live_calls(r"copy_from_nonoverlapping$|copy_nonoverlapping$|copy_to_nonoverlapping$")
+        mk = f.live_calls(r"WeakSliceMut::from_raw_parts_mut$|slice::from_raw_parts_mut$")
+        if not (ck.anchor("raw copy in " + name, len(cps) == 1) and ck.anchor("slice construction in " + name, len(mk) == 1)):
+            continue
+        cargs, margs = f.call_args(cps[0]), f.call_args(mk[0])
+        count, newlen = cargs[-1], margs[-1]
+        src = cargs[0] if cps[0].callee.endswith("::copy_nonoverlapping") and "mut_ptr" not in cps[0].callee \
+            and "const_ptr" not in cps[0].callee else cargs[1]
+        if "copy_to_nonoverlapping" in cps[0].callee:
+            src = cargs[0]
+        same = mir.fmt(mir.strip_casts(count)) == mir.fmt(mir.strip_casts(newlen))
+        src_ok = bool(mir.calls_in(src, r"as_ptr$|as_mut_ptr$")) and not any(x[0] == "call" and isinstance(x[1], str)
+                      and re.search(r"::(add|offset|wrapping_add|sub)$", x[1]) for x in mir.walk(src))
+        partial = [g.path.replace(Z, "") for g in P.fns.values()
+                   if g.path.startswith(f.path.rsplit("::", 1)[0] + "::") and _advance_exceeds_store(g)]
+        ck.decide(same and src_ok, "COPY/whole-buffer", name,
+                  "copies %s elements from the start of the source buffer = length of the new buffer%s"
+                  % (mir.fmt(count), (" (tail observable: %s)" % ",".join(partial)) if partial else ""),
+                  "the clone copies %s elements (source %s) but the new buffer has %s: bytes of the copy's buffer are "
+                  "left as the allocator returned them%s" % (mir.fmt(count), mir.fmt(src), mir.fmt(newlen),
+                  ("; %s stores fewer bytes than it advances the cursor, so those bytes are read later" % ",".join(partial))
+                  if partial else ""), where(f, cps[0].line))
+
     # ---------------- (6) no bitwise duplication through the type system ---------------------------
     owners = [Z + "deflate::State", Z + "inflate::State", Z + "deflate::DeflateStream", Z + "inflate::InflateStream",
               Z + "stable::Deflate", Z + "stable::Inflate", Z + "deflate::pending::Pending", Z + "deflate::sym_buf::SymBuf",
@@ -510,3 +549,23 @@ def _self_field(e):
     if root == ("p", 1) and len(fp) == 1:
         return fp[0]
     return None
+
+
+def _advance_exceeds_store(g):
+    """a method that advances the `filled` cursor by a constant k while storing fewer than k buffer bytes"""
+    k = None
+    for bi, fp, root, val, st in g.field_writes():
+        if fp and fp[-1] == "filled":
+            e = mir.strip_casts(val)
+            if e[0] == "bin" and e[1] in ("Add", "AddWithOverflow"):
+                cs = [x[1] for x in mir.consts_in(e) if isinstance(x[1], int)]
+                if cs:
+                    k = max(cs)
+    if not k:
+        return False
+    stores = 0
+    for bi, si, lhs, rv, st in g.assignments(True):
+        if any(pr.get("k") in ("index", "constindex") or "index" in str(pr.get("k", "")) for pr in lhs.get("p", []) if isinstance(pr, dict)):
+            stores += 1
+    stores += 2 * len(g.live_calls(r"write_unaligned$"))
+    return 0 < stores < k
